@@ -723,3 +723,12 @@ def mc(ctx):
 
 
 RULES.append(mc)
+
+
+@rule("G10", doc="when a class loses a slot its symmetries are either restricted to the kept slots or re-asserted: the split is made by membership in the slot set the class is given, over all entries of a generator, and every left-over generator is re-asserted (C02.P7) — otherwise the class keeps a slot its symmetries prove redundant, or its group gets a non-permutation")
+def g10(ctx):
+    from . import c02
+    c02.p7(ctx)
+
+
+RULES.append(g10)
